@@ -30,6 +30,7 @@ import (
 	"unicode"
 	"unicode/utf8"
 
+	"github.com/FollowTheProcess/spok/simhook"
 	"github.com/FollowTheProcess/spok/token"
 )
 
@@ -103,6 +104,7 @@ func (l *Lexer) skipWhitespace() {
 
 // next returns, and consumes, the next rune in the input.
 func (l *Lexer) next() rune {
+	simhook.Point("lexer.next", "")
 	r, width := utf8.DecodeRuneInString(l.rest())
 	l.width = width
 	l.pos += l.width
